@@ -336,8 +336,12 @@ def strip(fn: ast.FunctionDef) -> ast.FunctionDef:
     return fn
 
 
-def load(module: str, names: List[str], ns: Dict[str, Any]) -> Dict[str, Any]:
-    """compile the named top-level functions (or Class.method) of `module` from the working tree into namespace ns"""
+def load(module: str, names: List[str], ns: Dict[str, Any], _depth: int = 0) -> Dict[str, Any]:
+    """compile the named top-level functions (or Class.method) of `module` from the working tree into namespace ns.
+    Module-level helper functions of the SAME module that a loaded function calls and that the namespace does not provide are
+    loaded as well (so that extracting a few lines into a helper does not take the code out of reach); module-level constants
+    that are plain literals likewise."""
+    import builtins as _b
     for name in names:
         fn = core.find_def(module, name)
         if not isinstance(fn, ast.FunctionDef):
@@ -347,6 +351,29 @@ def load(module: str, names: List[str], ns: Dict[str, Any]) -> Dict[str, Any]:
         exec(code, ns)
         if "." in name:
             ns[name.replace(".", "__")] = ns[fn.name]
+        if _depth >= 3:
+            continue
+        try:
+            tree = core.module_ast(module)
+        except (FileNotFoundError, OSError):
+            continue
+        top_fns = {n.name: n for n in tree.body if isinstance(n, ast.FunctionDef)}
+        top_consts = {}
+        for n in tree.body:
+            if isinstance(n, (ast.Assign, ast.AnnAssign)) and getattr(n, "value", None) is not None:
+                for t in (n.targets if isinstance(n, ast.Assign) else [n.target]):
+                    if isinstance(t, ast.Name):
+                        top_consts[t.id] = n.value
+        local = {a.arg for a in fn.args.posonlyargs + fn.args.args + fn.args.kwonlyargs} | {n.id for n in ast.walk(fn) if isinstance(n, ast.Name) and isinstance(n.ctx, ast.Store)}
+        for n in ast.walk(fn):
+            if isinstance(n, ast.Name) and isinstance(n.ctx, ast.Load) and n.id not in ns and n.id not in local and not hasattr(_b, n.id):
+                if n.id in top_fns and n.id != fn.name:
+                    load(module, [n.id], ns, _depth + 1)
+                elif n.id in top_consts:
+                    try:
+                        ns[n.id] = ast.literal_eval(top_consts[n.id])
+                    except (ValueError, SyntaxError):
+                        pass
     return ns
 
 
